@@ -34,9 +34,12 @@ EXPLANATION = ("Theorems (Props/C11.lean + Theory/C11Fresh.lean, about the defin
                "DataSet.unify_taxon_namespaces, DataSet.read); closed_reachable / closed_from_init (induction over histories); the earlier "
                "closed_*_partial forms are kept; stepG_refuses; removed_tree_consistent, replaced_tree_consistent (clause c); fresh_step / "
                "fresh_reachable / freshNs_reachable (every referenced taxon id is allocated: an unconditional history invariant); clause b for "
-               "whole passes: mapTaxa_unify_spec, migrateTree_unify_spec, migrateTree_unify_reachable (no side conditions), "
+               "whole passes: mapTaxa_unify_spec, migrateTree_unify_spec, migrateTree_unify_reachable (no side conditions); across the trees of a "
+               "list and the lists of a data set through the shared memo: migrateTrees_unify_spec, migrateTl_unify_spec, migrateTls_unify_spec "
+               "(trees pairwise different objects), migrateTl_same_taxon_iff; every copy route: cloneMemo_spec, cloneTree_spec; the driver's own "
+               "run: runG_eq_run, closed_reachable_driver, fresh_stepG; "
                "resolved_member_label, same_taxon_iff_equal_labels, mapTaxa_shape; matrices: mapKeys_unify_spec, migrateMat_ok_closed, "
-               "migrateMat_refused_state (the known finding's state, precisely); unify_false_distinct_partial (one/two items, not lifted to "
+               "migrateMat_refused_state (the known finding's state, precisely; mapKeys_unify_spec is the soundness direction only); unify_false_distinct_partial (one/two items, not lifted to "
                "whole runs); migrate_*_partial (single resolutions). Not proved: unify=False distinctness over whole runs, the readers' "
                "last-match lookup as a label spec, 'no sequence merged' for accepted matrix passes (needs key-list Nodup).")
 
@@ -978,6 +981,35 @@ def classify(w, op, status, problems, shared=False):
     return "other"
 
 
+def expected_refusals(w, op):
+    """the refusals the statement's domain allows for this op in the current real world, decided here from the objects themselves
+    (never from what the library then does): a set of status names.  Anything else that is raised - in particular a TypeError /
+    AttributeError / IndexError / KeyError escaping from inside the library - is a crash, not a refusal."""
+    k = op[0]
+    try:
+        if k in ("setitem", "pop", "del"):
+            return {"IndexError"} if op[2] >= len(w.lists[op[1]]._trees) else set()
+        if k == "remove":
+            return {"ValueError"} if not any(t is w.trees[op[2]] for t in w.lists[op[1]]._trees) else set()
+        if k in ("mset", "mnew"):
+            m, x = w.mats[op[1]], w.nss[op[2]]._taxa[op[3]]
+            foreign = not any(x is y for y in m.taxon_namespace._taxa)
+            present = any(x is y for y in m._taxon_sequence_map.keys())
+            return {"ValueError"} if foreign or (k == "mnew" and present) else set()
+        if k in ("mmig", "mrec", "mclone"):
+            return {"Conflict"}       # TaxonNamespaceReconstructionError; whether it is legitimate is judged by Watch.check
+        if k == "dsunify":
+            ds = w.dss[op[1]]
+            if op[2] is None and not (len(ds.taxon_namespaces) or len(ds.tree_lists) or len(ds.char_matrices)):
+                return {"TypeError"}  # attach_taxon_namespace(None) is refused explicitly
+            return {"Conflict"}
+        if k == "taadd":
+            return {"NamespaceIdentity"} if w.trees[op[2]].taxon_namespace is not w.nss[op[1]] else set()
+    except IndexError:
+        return {"IndexError"}
+    return set()
+
+
 def run_history(ctx, dp, hist, pending, origin="random"):
     """execute on the implementation with the oracle after every step; queue the model comparison"""
     w = World(dp)
@@ -989,12 +1021,14 @@ def run_history(ctx, dp, hist, pending, origin="random"):
         shared = rebinds_shared_tree(w, op)
         if watch.mode == "read" or (watch.mode is not None and watch.before):
             nontrivial = True
+        allowed = expected_refusals(w, op)
         status = run_op(w, op)
         statuses.append(status)
         problems = closure_problems(w)
         problems += watch.check(status)
-        if status.startswith("Internal") or status == "Timeout":
-            problems.append(("error", "operation %s raised %s" % (op[0], status)))
+        if status != "ok" and status not in allowed:
+            problems.append(("error", "operation %s raised %s on an input for which the only refusals in the statement's domain are %s" % (
+                op[0], status, sorted(allowed) or "none")))
         states.append(canon(snapshot(w)))
         if problems:
             cls = classify(w, op, status, problems, shared)
@@ -1364,7 +1398,7 @@ def run(ctx):
     rng = ctx.rng
     # the budget is counted from here (waiting for the shared lake build lock must not eat the exploration time)
     ctx.t0 = __import__("time").time()
-    ctx.set_budget(38, 330)
+    ctx.set_budget(33, 330)
     pending = []
     import common
     shared_registered = any(k.get("property") == ID and k.get("id") == SHARED_ID for k in common.load_known().get("known", []))
